@@ -399,7 +399,22 @@ impl<'a> Tr<'a> {
                 self.bare_hint = Some(a.clone());
             }
         }
-        let (v, ty) = self.expr(e)?;
+        let saved_pre_len = self.pre.len();
+        let attempt = self.expr(e);
+        let (v, ty) = match attempt {
+            Ok(x) => x,
+            Err(msg) if matches!(e, syn::Expr::If(_) | syn::Expr::Match(_)) && msg.starts_with("effect inside") => {
+                // branches with effects: the statement form, binding the pattern in a continuation
+                self.pre.truncate(saved_pre_len);
+                self.bare_hint = None;
+                return match e {
+                    syn::Expr::Match(m) => self.match_stmt(m, rest, tail, false, Some((pat, ann))),
+                    syn::Expr::If(i) => self.if_stmt(i, rest, tail, false, Some((pat, ann))),
+                    _ => unreachable!(),
+                };
+            }
+            Err(msg) => return Err(msg),
+        };
         self.bare_hint = None;
         let pre = self.take_pre();
         let ty = match ann {
@@ -449,6 +464,16 @@ impl<'a> Tr<'a> {
             }
             syn::Pat::TupleStruct(ts) => {
                 let name = ts.path.segments.last().unwrap().ident.to_string();
+                {
+                    let segs: Vec<String> = ts.path.segments.iter().map(|s| s.ident.to_string()).collect();
+                    let owner = if segs[0] == "Self" { self.f.container.clone() } else { segs[0].clone() };
+                    if segs.len() == 2 && matches!(crate::wrappers::wrapper(&owner), Some(crate::wrappers::WKind::CurveTagged)) {
+                        if let Some(c) = crate::wrappers::curve_ctor(&segs[1]) {
+                            let inner = self.pat(&ts.elems[0], &RTy::W("SecretKey".into()))?;
+                            return Ok(format!("({}, {})", c, inner.trim_start_matches('\'')));
+                        }
+                    }
+                }
                 if let Some((ctor, payload)) = self.variant_ctor(&ts.path) {
                     let mut parts = vec![];
                     for e in &ts.elems {
@@ -499,6 +524,9 @@ impl<'a> Tr<'a> {
                 let first = pp.path.segments.first().unwrap().ident.to_string();
                 if first == "SignatureSchemes" {
                     return crate::wrappers::scheme_ctor(&name).map(|s| s.to_string()).ok_or_else(|| "scheme variant".to_string());
+                }
+                if first == "Bls12381" {
+                    return crate::wrappers::curve_ctor(&name).map(|s| s.to_string()).ok_or_else(|| "curve variant".to_string());
                 }
                 match name.as_str() {
                     "None" => "None".into(),
